@@ -70,6 +70,8 @@ def args_of(cfg, out="a.h5", extra=()):
         a += ["--InitialDistZoom", repr(cfg["zoom"])]
     if cfg.get("volt"):
         a += ["-V", repr(cfg["volt"])]
+    if "roundpad" in cfg:
+        a += ["--RoundPadding", str(cfg["roundpad"])]
     if out:
         a += ["-o", out]
     return a + list(extra)
